@@ -537,6 +537,8 @@ async def _async_http(k, peer, method, url, headers, data, timeout):
         peer.requests.append((method, url, data, dict(headers or {})))
         path, q = peer._split(url)
         body = data.encode('utf-8') if isinstance(data, str) else (data or b'')
+        if method == 'POST' and peer.hold_posts:
+            await k.ablock(lambda: not peer.hold_posts, None, 'http POST held (slow network)')
         r = peer.sut.request(method, q, {kk: vv for kk, vv in (headers or {}).items() if kk.lower() != 'content-type'}, body)
         dl = None if timeout is None else k.now + timeout
         ok = await k.ablock(lambda: r.done, dl, 'http')
